@@ -252,4 +252,35 @@ theorem run_bytes_in_row (pitch obpp w : Nat) (r : Run) (hp : w * obpp ≤ pitch
   rw [Nat.succ_mul]
   omega
 
+/-! ### line buffer -/
+
+theorem lbLines_eq (cap : Nat) (hcap : 0 < cap) :
+    ∀ fuel onDisk base, onDisk ≤ fuel → lbLines cap fuel onDisk base = (List.range onDisk).map (base + ·) := by
+  intro fuel
+  induction fuel with
+  | zero => intro onDisk base h; have : onDisk = 0 := by omega
+            subst this; rfl
+  | succ fuel ih =>
+    intro onDisk base h
+    unfold lbLines
+    by_cases h0 : onDisk = 0
+    · subst h0; rfl
+    · rw [if_neg h0]
+      simp only
+      have hk : 0 < min cap onDisk := by omega
+      rw [ih (onDisk - min cap onDisk) (base + min cap onDisk) (by omega)]
+      have e : onDisk = min cap onDisk + (onDisk - min cap onDisk) := by omega
+      conv => rhs; rw [e, List.range_add, List.map_append, List.map_map]
+      congr 1
+      apply List.map_congr_left
+      intro x _
+      simp [Function.comp, Nat.add_assoc]
+
+theorem lbCapacity_pos (bpl h : Nat) (hh : 0 < h) : 0 < lbCapacity bpl h := by
+  unfold lbCapacity
+  simp only
+  split
+  · omega
+  · split <;> omega
+
 end Dds.Addr
